@@ -92,8 +92,9 @@ def special_case(rng, j):
 
 def run(rep, tier, seed):
     rep.cov["trusted_base"] = BASE_TRUST + [
-        "event functions in the correspondence depend on time only (g_i = t - c_i), so that the Lean model can evaluate them itself; "
-        "state-dependent event functions are exercised by the oracle on closed-form problems only",
+        "event functions in the correspondence depend on time only (g_i = t - c_i, (t - a)(t - b), (t - c)(1 + k (t - c)^2)), so that the Lean "
+        "model can evaluate them itself; the theorems on the search (C10_search_sound, C10_locate_sound) quantify over every event "
+        "function; state-dependent event functions are exercised by the oracle on closed-form problems only",
         "after a non-terminal event the integration restarts from the interpolated state: the later trajectory is perturbed within the "
         "dense-output accuracy (measured, not proved)"]
     failed = rep.add_proof(prove("C10"))
@@ -190,6 +191,77 @@ def run(rep, tier, seed):
                 known22.append((case, bad[0]))
             else:
                 fails.append((case, "; ".join(bad[:2])))
+    # ---- nonlinear event functions of time, one component per run (the `gfun` reading of the Lean model: theorems
+    #      C10_search_sound / C10_locate_sound quantify over every event function).  ("q", a, b): (t-a)(t-b) falls through a and
+    #      rises through b; ("k", c, kappa): (t-c)(1+kappa (t-c)^2) rises through c, the secant start is not the zero.
+    #      hmax < (b-a)/3 keeps the two zeros of a "q" component in different accepted steps.  Replayed bit for bit on the Lean
+    #      controller; oracle: the analytic crossing list filtered by direction, up to a terminal event.
+    rng_n = np.random.default_rng([seed, 1011])
+    nnl = 24 if tier == "quick" else 240
+    for k in range(nnl):
+        pname = str(rng_n.choice(["decay", "ramp", "osc"]))
+        t0 = float(rng_n.choice([0.0, 0.25, -1.5, 10.0]))
+        span = float(rng_n.choice([0.5, 2.0, 7.3]))
+        tend = t0 + span
+        d = int(rng_n.choice([-1, 0, 1]))
+        tm = bool(rng_n.random() < 0.35)
+        optkw = dict(rtol=float(rng_n.choice([1e-3, 1e-5, 1e-7])), atol=float(rng_n.choice([1e-6, 1e-9])))
+        if rng_n.random() < 0.3:
+            optkw["scheme"] = str(rng_n.choice(["rodasp", "rodas5p"]))
+        if k % 2 == 0:
+            a = t0 + span * float(rng_n.uniform(0.05, 0.55))
+            b = a + span * float(rng_n.uniform(0.1, 0.4))
+            optkw["hmax"] = float((b - a) / float(rng_n.choice([3.5, 8.0, 40.0])))
+            cspec = ("q", float(a), float(b))
+            cross = [(a, -1), (b, +1)]
+        else:
+            c = t0 + span * float(rng_n.uniform(0.05, 0.95))
+            kappa = float(rng_n.choice([0.5, 10.0, 1e3, 1e6]))
+            if rng_n.random() < 0.5:
+                optkw["hmax"] = float(span * rng_n.choice([0.05, 0.3]))
+            cspec = ("k", float(c), kappa)
+            cross = [(c, +1)]
+        tspan = [t0, tend] if rng_n.random() < 0.5 else [float(x) for x in np.linspace(t0, tend, int(rng_n.integers(3, 40)))]
+        specs = [(cspec, d, tm)]
+        hist["nonlinear_" + cspec[0]] = hist.get("nonlinear_" + cspec[0], 0) + 1
+        dae, y0 = P[pname]
+        case = dict(problem=pname, tspan=tspan if len(tspan) < 12 else [tspan[0], "...", tspan[-1], len(tspan)], opt=optkw,
+                    events=[[list(cspec), d, tm]], family="nonlinear event function of time")
+        sol, tr = RC.run_rodas(dae, y0, tspan, optkw, specs)
+        if isinstance(sol, Exception):
+            fails.append((case, f"Rodas raised {type(sol).__name__}: {sol}"))
+            continue
+        lines.append(RC.protocol_line(tspan, optkw, specs, tr))
+        expect.append(RC.expected_answer(sol, tr)); cases.append(case)
+        T = np.asarray(sol.T, dtype=float)
+        te = [float(x) for x in np.asarray(sol.te, dtype=float)]
+        hist["events_reported"] += len(te)
+        want = []
+        for (c_, sgn) in cross:
+            if t0 < c_ < tend and (d == 0 or d == sgn):
+                want.append(c_)
+                if tm:
+                    break
+        bad = []
+        if len(te) != len(want):
+            bad.append(f"{len(te)} events reported at {te}, the event function {cspec} has its permitted sign changes (direction {d}, "
+                       f"terminal {tm}) at {want}")
+        else:
+            for t_e, c_ in zip(te, want):
+                if abs(t_e - c_) > 1e-6 * max(1.0, abs(c_)):
+                    bad.append(f"event reported at {t_e!r}, the sign change of {cspec} is at {c_!r}")
+        for t_e in te:
+            # soundness stated on the function itself: it changes sign (or vanishes) within 1e-6 of the reported time
+            lo, hi = RC.ev_value(cspec, t_e - 1e-6 * max(1.0, abs(t_e))), RC.ev_value(cspec, t_e + 1e-6 * max(1.0, abs(t_e)))
+            if lo * hi > 0:
+                bad.append(f"event reported at {t_e!r} where {cspec} does not change sign (values {lo!r}, {hi!r} just before and after)")
+        if tm and want:
+            if len(te) and T[-1] != te[-1]:
+                bad.append(f"terminal event at {te[-1]!r} but the last returned time is {T[-1]!r}")
+        elif getattr(sol.stats, "ret", None) != "failed" and T[-1] != tend:
+            bad.append(f"no terminal event was due but the run ended at {T[-1]!r}, not at tend {tend!r}")
+        if bad:
+            fails.append((case, "; ".join(bad[:2])))
     # ---- state-dependent events with analytic crossing times: harmonic oscillator x'' = -x, event g = x
     #      (soundness, completeness, ye = state at te, and 'detecting events never perturbs the trajectory')
     from scipy.sparse import csc_array
